@@ -77,14 +77,14 @@ add("b2_utf16_next", "yaml::encoding",
     desc="Utf16Decoder::next equals the reference decoder (Unicode D91): BMP unit, well-formed pair, lone trail, lead+non-trail (unit kept and re-examined), lead at EOF; every produced char is a scalar value (discharges both from_u32_unchecked sites)",
     bounds="two code units, all 2^32 value pairs; both byte orders; 0..4 bytes present; every windowing of the source",
     functions=B_FUN[1:3], covers=["B2 surrogate pair above plane 1", "B2 lone trail surrogate", "B2 lead followed by non-trail", "B2 lead at end of input"],
-    props=["C07", "C04", "C17"], timeout=600, mem_gb=10, assumptions=B_SRC)
+    props=["C07", "C17"], timeout=600, mem_gb=10, assumptions=B_SRC, thorough_props=["C04"])
 add("b2_utf16_next_fault", "yaml::encoding",
     desc="B2 with a source that fails from a symbolic offset: a fault is Some(Err), never a fabricated char and never a clean end",
     bounds="as B2; fault offset any 0..=len", functions=B_FUN[1:3], covers=["B2 reader fault reached"],
     props=["C12", "C07"], timeout=600, mem_gb=10, assumptions=B_SRC)
 add("b2_utf16_truncated_unit", "yaml::encoding", desc="an odd trailing byte (1 or 3 bytes) is an error after the complete units",
     bounds="3 symbolic bytes, both byte orders", functions=B_FUN[1:3], covers=["B2 truncated second unit"],
-    props=["C07", "C04"], timeout=300, mem_gb=8, assumptions=B_SRC)
+    props=["C07"], timeout=300, mem_gb=8, assumptions=B_SRC, thorough_props=["C04"])
 add("b3_utf32_next", "yaml::encoding",
     desc="Utf32Decoder::next: Ok(c) iff 4 bytes present and the value is a scalar (<= 0x10FFFF, not D800-DFFF) and c equals it; 1-3 bytes -> Err; 0 bytes -> None",
     bounds="one code unit, all 2^32 values; both byte orders; 0..4 bytes present; every windowing", functions=B_FUN[3:4],
@@ -98,7 +98,7 @@ add("b4_utf8_step_quick", "yaml::encoding",
     desc="one Utf8Encoder::read from an arbitrary state: returns min(want, pending) bytes, they are the next bytes of the reference UTF-8 stream (BOM skipped iff first), post-state encodes exactly the rest; remainder indices in range",
     bounds="2 pending chars (all scalar values), remainder any 0..4 bytes, caller buffer 0..5", functions=B_FUN[4:7],
     covers=["B4 char split across two reads", "B4 leading BOM skipped"],
-    props=["C07", "C04", "C02"], timeout=900, mem_gb=12, assumptions=B4_ASM)
+    props=["C07", "C02"], timeout=900, mem_gb=12, assumptions=B4_ASM, thorough_props=["C04"])
 add("b4_utf8_step_err_quick", "yaml::encoding",
     desc="B4 with an Err item at a symbolic position of the character source: read returns Err exactly when the item is reached, never a short Ok",
     bounds="as b4_utf8_step_quick; error position any 0..=n", functions=B_FUN[4:7], covers=["B4 source error surfaces as Err"],
@@ -110,7 +110,7 @@ add("b5_encoder_utf16", "yaml::encoding",
     desc="Encoder::new(UTF-16) end to end through the real type wiring: output = reference UTF-8 of the decoded scalars, one leading BOM stripped, ill-formed -> Err",
     bounds="0..4 source bytes (2 units), both byte orders, every source windowing, caller buffers 1..5, <= 8 reads", functions=B_FUN,
     covers=["B5 surrogate pair through the composed encoder", "B5 lone BOM yields empty text"],
-    props=["C07", "C02"], timeout=1500, mem_gb=16, assumptions=B_SRC)
+    props=["C07", "C02"], timeout=3000, mem_gb=40, assumptions=B_SRC, tier="thorough")
 add("b5_encoder_utf32", "yaml::encoding", desc="Encoder::new(UTF-32) end to end, two units",
     bounds="0..8 source bytes, both byte orders, every windowing, caller buffers 1..5, <= 10 reads", functions=B_FUN,
     covers=["B5 two supplementary chars"], tier="thorough", props=["C07", "C02"], timeout=3000, mem_gb=20, assumptions=B_SRC)
@@ -118,11 +118,11 @@ add("b6_from_reader_prefix", "yaml::encoding",
     desc="Encoder::from_reader: for every windowing of the source the encoding is decided by the first min(4,len) bytes (reference table) and the peeked bytes are chained back: output = reference transcoding of the whole input",
     bounds="0..4 source bytes, all values, every windowing (incl. 1-byte first reads); one read of 12 bytes", functions=B_FUN,
     covers=["B6 utf16le text detected and re-encoded", "B6 utf32le detected"],
-    props=["C07", "C02", "C09"], timeout=1500, mem_gb=16, assumptions=B_SRC + B_COPY, replay="none")
+    props=["C07", "C02", "C09"], timeout=3000, mem_gb=40, assumptions=B_SRC + B_COPY, replay="none", tier="thorough")
 add("b6_from_reader_chain_back", "yaml::encoding",
     desc="Encoder::from_reader on a UTF-8 stream longer than the 4 peeked bytes: the output is the whole input, i.e. the peeked bytes are chained back in front of the rest, for every windowing",
     bounds="0..6 source bytes whose first two bytes are neither NUL nor BOM halves", functions=B_FUN, covers=["B6 utf8 passthrough keeps the peeked bytes"],
-    props=["C07", "C02", "C09"], timeout=900, mem_gb=12, assumptions=B_SRC + B_COPY, replay="none")
+    props=["C07", "C02", "C09"], timeout=3000, mem_gb=30, assumptions=B_SRC + B_COPY, replay="none", tier="thorough")
 add("b6_from_reader_prefix_8", "yaml::encoding", desc="B6 with 0..8 source bytes", bounds="0..8 source bytes", functions=B_FUN,
     covers=["B6 utf32le detected"], tier="thorough", props=["C07", "C02"], timeout=3000, mem_gb=20, assumptions=B_SRC + B_COPY, replay="none")
 
@@ -206,12 +206,12 @@ add("d1a_every_scalar_kind", "transcode::stream",
 add("d1b_fidelity_structure", "transcode::stream",
     desc="fidelity without faults: every event (i8, u64, unit, seq, map with hints, end) is forwarded exactly once, in order, with the same role (element/key/value alternate correctly) and length hint; Ok only when everything consumed was forwarded",
     bounds="<= 6 events, nesting 1, all scalar values", functions=D_FUN, covers=["D Ok with a filled collection"],
-    flags=NOCHK, props=["C01", "C03"], timeout=1200, mem_gb=16, assumptions=D_ASM, replay="stream")
+    flags=NOCHK, props=["C01", "C03"], timeout=1500, mem_gb=16, assumptions=D_ASM, replay="stream")
 add("d2_attribution", "transcode::stream",
     desc="one fault on either side at any position: serializer fault => Error::Ser(genuine serializer error); deserializer fault => Error::De(genuine deserializer error); never the synthetic filler; no serializer call after the fault; a fault is never success",
     bounds="<= 6 events, nesting 1, serializer fault at any call position (usize), deserializer fault at any event / between entries / before a value",
     functions=D_FUN, covers=["D serializer fault inside a collection", "D deserializer fault inside a collection"],
-    flags=NOCHK, props=["C11", "C12"], timeout=1500, mem_gb=16, assumptions=D_ASM, replay="stream")
+    flags=NOCHK, props=["C11"], timeout=1800, mem_gb=16, assumptions=D_ASM, replay="stream", thorough_props=["C12"])
 add("d2b_attribution_nest2_small", "transcode::stream",
     desc="D2 at nesting 2 with 3 events (collection > collection > failing entry): a collection child that reports a deserializer / serializer failure to its parent is attributed correctly - the inductive case the nesting-1 harness cannot produce",
     bounds="<= 3 events, nesting 2, one fault on either side at any position", functions=D_FUN,
@@ -219,7 +219,11 @@ add("d2b_attribution_nest2_small", "transcode::stream",
     flags=NOCHK, props=["C11", "C12"], timeout=1500, mem_gb=16, assumptions=D_ASM, replay="stream")
 add("d3_totality", "transcode::stream",
     desc="as D2 with all default checks on (take_parent/unwrap panics, memory safety, overflow)", bounds="<= 4 events, nesting 1, faults anywhere",
-    functions=D_FUN, covers=["D serializer fault inside a collection"], props=["C04", "C12"], timeout=1500, mem_gb=16, assumptions=D_ASM, replay="stream")
+    functions=D_FUN, covers=["D serializer fault inside a collection"], props=["C04", "C12"], timeout=2400, mem_gb=16, assumptions=D_ASM, replay="stream", tier="thorough")
+add("d3_totality_small", "transcode::stream",
+    desc="as D2 with all of Kani's default checks on (take_parent/unwrap panics, memory safety, overflow): no panic of the transcoder for any event sequence and any single fault",
+    bounds="<= 3 events, nesting 1, faults anywhere", functions=D_FUN, covers=["D deserializer fault inside a collection"],
+    props=["C04", "C12"], timeout=1200, mem_gb=16, assumptions=D_ASM, replay="stream")
 add("d4_nest2", "transcode::stream", desc="D2 at nesting 2 (best effort)", bounds="<= 4 events, nesting 2", functions=D_FUN,
     covers=["D4 nesting two reached"], flags=NOCHK, tier="thorough", props=["C11", "C12", "C01"], timeout=3000, mem_gb=40, assumptions=D_ASM, replay="stream")
 
@@ -231,8 +235,8 @@ add("e1_value_scalars", "transcode::value",
 add("e2_value_structure", "transcode::value",
     desc="Value round trip of structure: deserializing an event sequence and serializing the Value yields the same events, order and roles; collections declare their exact length",
     bounds="<= 4 events, nesting 1, honest length hints <= 4", functions=E_FUN,
-    covers=["E2 map with an entry", "E2 seq with two elements"], flags=NOCHK, props=["C01", "C03"], timeout=1200, mem_gb=28,
-    assumptions=D_ASM[:2])
+    covers=["E2 map with an entry", "E2 seq with two elements"], flags=NOCHK, props=["C01", "C03"], timeout=3600, mem_gb=40,
+    assumptions=D_ASM[:2], tier="thorough")
 
 
 # ---------------------------------------------------------------------------------------------
@@ -266,7 +270,7 @@ add("g2_chunkreader_overclaim_panics", "yaml::chunker",
 add("h1_read_handler_claims", "yaml::chunker::parser",
     desc="Parser::read_handler, two consecutive calls with arbitrary (also shrinking) buffer sizes and a reader claiming ANY length or failing: nothing written beyond buffer_size (canary + pointer checks), *size_read <= buffer_size, the reader is never offered more than buffer_size, failure stashes / success clears the error",
     bounds="destination 8 B, buffer_size 0..8 per call, claim any usize, 2 calls", functions=["yaml::chunker::parser::Parser::read_handler"],
-    covers=["H1 second call copies three bytes", "H1 absurd claim rejected"], props=["C17", "C04", "C12"], timeout=600, mem_gb=10)
+    covers=["H1 second call copies three bytes", "H1 absurd claim rejected"], props=["C17", "C04", "C12"], timeout=900, mem_gb=10)
 add("h1_read_handler_null_args", "yaml::chunker::parser", desc="null read_state / buffer / size_read are refused without dereference or side effect",
     bounds="each of the three arguments null", functions=["yaml::chunker::parser::Parser::read_handler"], covers=["H1 null size_read"],
     props=["C17"], timeout=300, mem_gb=8)
@@ -302,7 +306,7 @@ add("i1_json_detect_slice", "json", overlay=DEP,
 add("i5_json_slice_loop", "json", overlay=DEP,
     desc="json::transcode slice branch: exactly one transcode_value per document, in input order; a syntax error or an output failure stops the loop and is returned; Ok exactly at a clean end",
     bounds="input 0..4 symbolic bytes, output failure at any document", functions=["json::transcode (slice branch)", "transcode::value::Value::deserialize"],
-    covers=["I5j three documents", "I5j syntax error after one document"], props=["C03", "C12", "C02"], timeout=1200, mem_gb=14, assumptions=I_ASM[:1])
+    covers=["I5j three documents", "I5j syntax error after one document"], props=["C03", "C02"], timeout=1200, mem_gb=14, assumptions=I_ASM[:1], thorough_props=["C12"])
 add("i4_json_output_framing", "json", overlay=DEP,
     desc="json::Output: token, newline per document through both entry points; short writes; write fault at any byte (incl. the newline) => Err with a prefix written",
     bounds="2 one-token documents, any short-write pattern, fault at any byte", functions=["json::Output::transcode_from", "json::Output::transcode_value"],
@@ -314,7 +318,7 @@ add("i2_yaml_routing", "yaml", overlay=DEP,
     assumptions=I_ASM[:1] + ["yaml::transcode_reader replaced by a stub recording that the re-encoding route was taken (the route itself is family B)"], replay="f3")
 add("i5_yaml_slice_loop", "yaml", overlay=DEP,
     desc="yaml::transcode fast path: one transcode_from per document in order; a failing document or output stops the loop", bounds="ASCII input 0..3 bytes, output failure at any document",
-    functions=["yaml::transcode (fast path)"], covers=["I5y three documents"], props=["C03", "C12"], timeout=900, mem_gb=12, assumptions=I_ASM[:1])
+    functions=["yaml::transcode (fast path)"], covers=["I5y three documents"], props=["C03"], timeout=900, mem_gb=12, assumptions=I_ASM[:1], thorough_props=["C12"])
 add("i4_yaml_output_framing", "yaml", overlay=DEP,
     desc="yaml::Output: '---' line before every document through both entry points; short writes deliver exactly the output; write fault at any byte => Err",
     bounds="2 one-token documents, any short-write pattern, fault at any byte", functions=["yaml::Output::transcode_from", "yaml::Output::transcode_value"],
@@ -374,6 +378,11 @@ add("e3_k7_reader_loops", "", overlay="e3",
     desc="the reader-mode document loops of the library (behind Box<dyn Read>, out of Kani's reach) from the library crate's MIR: msgpack::transcode (slice and reader branch), json::transcode (both branches), yaml::transcode_reader: one transcode_from per document in order; a failure of the reader (fill_buf / chunker item), the size calculator, from_utf8, the encoder set-up or the output is returned as Err and nothing is read or translated afterwards; Ok only at the clean end of input; every rmp-serde deserializer gets set_max_depth(DEPTH_LIMIT) before use",
     bounds="<= 3 documents per run (thorough: 4); all outcomes of fill_buf / end / iterator next / transcode_from", functions=["msgpack::transcode", "json::transcode", "yaml::transcode_reader"],
     props=["C03", "C12", "C18", "C02"], timeout=600, mem_gb=4, assumptions=K_ASM[:1] + ["third-party calls (BufReader::fill_buf, Deserializer::{new,end}, StreamDeserializer::next, Chunker::next) return symbolic results"])
+add("e3_k9_chunker", "", overlay="e3",
+    desc="yaml::chunker::Chunker::next (which does not fit in Kani) from the library crate's MIR, one call from each abstract pre-state over the libyaml event contract: a document is returned only when the next DOCUMENT-START or STREAM-END is seen (deferred by one) and is exactly the chunk cut at its DOCUMENT-END with the kind of its first content event; DOCUMENT-START trims the capture buffer to the event's start offset; a parser error becomes Some(Err(io::Error::new(InvalidData, ..))); None after STREAM-END without consulting the parser; post-state follows the events",
+    bounds="12 abstract pre-states (pending document y/n, kind none/scalar/collection, ended y/n) x event sequences <= 3 (thorough: 4) over 8 symbolic event classes", functions=["yaml::chunker::Chunker::next"],
+    props=["C03", "C02", "C09"], thorough_props=["C04", "C12"], timeout=1500, mem_gb=4,
+    assumptions=K_ASM[:1] + ["libyaml event contract: event types as in unsafe_libyaml::yaml_event_type_t; ChunkReader::{trim_to_offset,take_to_offset} are checked separately (G1); String::from_utf8(..).unwrap() is uninterpreted (marks inside a multi-byte character are outside the contract)"])
 add("e3_k8_from_reader", "", overlay="e3",
     desc="yaml::encoding::Encoder::from_reader from the library crate's MIR: the detector is given prefix.unread() where the prefix buffer was filled by io::copy(reader.by_ref().take(DETECT_LEN)) - io::copy loops until Take is exhausted, so four bytes are seen for EVERY windowing of the source - and Encoder::new gets prefix.chain(reader) with the detected encoding; a copy failure is returned as Err",
     bounds="all paths of from_reader (data-flow of the four observable calls)", functions=["yaml::encoding::Encoder::from_reader"],
@@ -397,6 +406,9 @@ def by_name(n):
 def select(prop, tier):
     out = []
     for h in H:
-        if prop in h.props and (tier == "thorough" or h.tier == "quick"):
+        if tier == "thorough":
+            if prop in h.props or prop in h.thorough_props:
+                out.append(h)
+        elif prop in h.props and h.tier == "quick":
             out.append(h)
     return out
